@@ -103,7 +103,7 @@ def run(oc, tier, seed, model_available, escalate):
     m = ft()
     rng = random.Random(seed * 32452843 + 19)
     nfun = 1200 if tier == "quick" else 15000
-    ncli = 24 if tier == "quick" else 300
+    ncli = 40 if tier == "quick" else 400
     if escalate:
         nfun *= 3
     d = os.path.join(common.scratch(), "c19")
@@ -152,11 +152,11 @@ def run(oc, tier, seed, model_available, escalate):
                 oc.sample({"request": lines[-1][:300], "impl_reply": rep[:200]})
         # ---- CLI level: single file and directory, real block size 65536
         for i in range(ncli):
-            kind = rng.choice(["file", "dir", "dir"])
+            kind = rng.choice(["file", "dir", "file", "dir"]) if i % 8 else "file"
             root = os.path.join(d, "cli")
             shutil.rmtree(root, ignore_errors=True)
             os.makedirs(root)
-            sizes = [rng.choice([0, 1, 10, 200, 65535, 65536, 65537, 70000] if i % 4 == 0 else [0, 1, 10, 200, 1000])
+            sizes = [rng.choice([65536, 65536, 65540, 131071] if i % 8 == 0 else ([0, 1, 10, 200, 65535, 65536, 65537, 70000] if i % 4 == 0 else [0, 1, 10, 200, 1000]))
                      for _ in range(1 if kind == "file" else rng.randint(1, 4))]
             names = ["a.bin", "b/c.bin", "b/d/e.bin", "z.bin"]
             files = {}
@@ -168,6 +168,13 @@ def run(oc, tier, seed, model_available, escalate):
             mode, proba, block_proba, burst, header = gen_params(rng, max(sizes), cli=True)
             if max(sizes) > 60000 and proba and proba < 1:
                 proba = 0.0005
+            if max(sizes) >= 65536 and i % 8 == 0:
+                # files longer than one block (65536 bytes) with options whose use of the random stream depends on the block boundaries
+                mode, header = rng.choice(["noise", "erasure"]), rng.choice([None, None, 65537, 100000])
+                # (with a block probability the number of draws depends on the number of blocks: 65536 bytes are one block of 65536 but two of 65535)
+                proba = rng.choice([0.5, 0.9, 0.2])
+                block_proba = rng.choice([0.7, 1.0, 0.7])
+                burst = None
             argv = ["-i", os.path.join(root, "a.bin") if kind == "file" else root, "-m", mode, "-p", str(proba)]
             if block_proba is not None:
                 argv += ["--block_probability", str(block_proba)]
@@ -175,7 +182,8 @@ def run(oc, tier, seed, model_available, escalate):
                 argv += ["-b", "%d|%d" % tuple(burst)]
             if header:
                 argv += ["--header", str(header)]
-            rec = RecordingRandom(rng.getrandbits(32))
+            rseed = rng.getrandbits(32)
+            rec = RecordingRandom(rseed)
             m.random = rec
             try:
                 with common.captured() as buf:
@@ -210,6 +218,29 @@ def run(oc, tier, seed, model_available, escalate):
                 region_sum += len(files[nme]) if not header else min(header, len(files[nme]))
             if tcount is not None and not (totdiff <= tcount <= region_sum):
                 errs.append("reported count %d not within [differing=%d, region=%d]" % (tcount, totdiff, region_sum))
+            if kind == "file" and exc is None:
+                # "a single file behaves as on a one-file directory": same file, same options, same random stream, given as a directory
+                one = os.path.join(d, "cli1")
+                shutil.rmtree(one, ignore_errors=True)
+                os.makedirs(one)
+                open(os.path.join(one, "a.bin"), "wb").write(files["a.bin"])
+                rec1 = RecordingRandom(rseed)
+                m.random = rec1
+                try:
+                    with common.captured() as buf1:
+                        rc1 = m.main(["-i", one] + argv[2:])
+                    txt1 = buf1.getvalue()
+                except BaseException as e1:
+                    rc1, txt1 = "exception:%s" % type(e1).__name__, ""
+                finally:
+                    m.random = orig_random
+                out1 = open(os.path.join(one, "a.bin"), "rb").read()
+                mm1 = re.search(r"overall (\d+)/(\d+)", txt1)
+                if rc1 != 0 or out1 != outs["a.bin"] or (mm1 and tcount is not None and (int(mm1.group(1)), int(mm1.group(2))) != (tcount, ttotal)):
+                    errs.append("the file given alone and the same file as a one-file directory are not tampered alike with the same random stream "
+                                "(exit %r; bytes equal: %s; counts %s vs %s/%s)" % (rc1, out1 == outs["a.bin"], mm1.groups() if mm1 else None, tcount, ttotal))
+                shutil.rmtree(one, ignore_errors=True)
+                oc.count("cli: file vs one-file directory")
             for e in errs:
                 oc.violations.append({"input": {"level": "cli", "argv": argv[2:], "kind": kind,
                                                 "files": {k: v.hex() for k, v in files.items()},
